@@ -9,6 +9,7 @@ import (
 	"github.com/attestantio/dirk/rules"
 	"github.com/attestantio/dirk/services/checker"
 	"github.com/attestantio/dirk/services/fetcher"
+	"github.com/attestantio/dirk/services/ruler"
 	"github.com/attestantio/dirk/services/unlocker"
 	e2types "github.com/wealdtech/go-eth2-types/v2"
 	e2wtypes "github.com/wealdtech/go-eth2-wallet-types/v2"
@@ -300,6 +301,30 @@ func (r *FaultRules) OnSignBeaconAttestations(ctx context.Context, metadata []*r
 			if n >= 1 && n < len(res) {
 				res = res[:n]
 			}
+		}
+	}
+
+	return res
+}
+
+// ---- ruler -------------------------------------------------------------------------------------
+
+// FaultRuler overrides the verdicts the signer receives from the ruler (site "ruler", key = hex
+// pubkey, mode FAILED|UNKNOWN|DENIED).  The list keeps its length.
+type FaultRuler struct {
+	ruler.Service
+	Plan *FaultPlan
+}
+
+// RunRules implements ruler.Service.
+func (r *FaultRuler) RunRules(ctx context.Context, credentials *checker.Credentials, action string, data []*ruler.RulesData) []rules.Result {
+	res := r.Service.RunRules(ctx, credentials, action, data)
+	for i := range data {
+		if data[i] == nil || i >= len(res) {
+			continue
+		}
+		if mode, hit := r.Plan.Hit("ruler", fmt.Sprintf("%x", data[i].PubKey)); hit {
+			res[i] = modeResult(mode)
 		}
 	}
 
